@@ -112,7 +112,7 @@ def _(repo):
     ok = ("letneed_sync=self.config.concatenated_genomes&&(count+1)%self.config.pack_size==0;" in b
           and "letpriority=*next_p;*next_p-=1;priority" in b
           and "ifletSome(priority)=priorities.get_mut(&sample_name){*priority-=1;}" in b
-          and "cost:0," in b and "letcost=data.len();" in b)
+          and "cost:0," in _norm(_src(repo)) and "letcost=data.len();" in b)   # the token literal may live in a helper
     return defN("det_push_shape", 1 if ok else 0)
 
 
